@@ -224,8 +224,16 @@ func runC03(e *env) {
 				e.m.fail(oracleFailure{What: "the TypeScript generator dies: " + o.Gen["ts"].Msg, Input: spec})
 			}
 		}
-		if r == nil || r.BuildErr != "" {
+		if o.LoadErr != "" || o.Outcome != "ok" || o.Gen["ts"].Outcome != "ok" {
 			continue
+		}
+		// without test binary (it needs the Go generators to compile for the module) the TypeScript file is still
+		// compared with the model, without documents
+		var records []binRecord
+		if r == nil || r.BuildErr != "" {
+			e.m.count("no_test_binary")
+		} else {
+			records = r.Records
 		}
 		decls, unparsed := readTS(o.Gen["ts"].Text)
 		if len(unparsed) > 0 {
@@ -233,7 +241,7 @@ func runC03(e *env) {
 		}
 		var docs []string
 		cls := ""
-		for _, rec := range r.Records {
+		for _, rec := range records {
 			if rec.Kind != "roundtrip" || rec.JSON == "" {
 				continue
 			}
@@ -277,6 +285,7 @@ func corpusTS() []*modSpec {
 	}
 	return []*modSpec{
 		mk("ts-generic-named-containers", "package models\n\ntype S struct {\n\tA Seq[int]\n\tB Seq[string]\n\tC Dict[bool]\n\tD Dict[IdX]\n\tE Pair[int]\n\tF []Seq[int]\n}\n", modFile{"other.go", "package models\n\ntype IdX int64\n\ntype Seq[T any] []T\n\ntype Dict[V any] map[string]V\n\ntype Pair[T any] [2]T\n"}),
+		mk("ts-arrays-sharing-an-alias", "package models\n\ntype Small struct{ P [2]int }\ntype Wide struct{ P [2]int64 }\ntype F struct {\n\tA [3]float32\n\tB [3]float64\n\tC [2]uint8\n\tD [2]int\n\tE [2][2]int\n\tG [2][2]int16\n}\n"),
 		mk("ts-shapes", "package models\n\nimport \"time\"\n\ntype ID int64\ntype Name string\ntype Ratio float64\ntype Flag bool\ntype Ints []int\ntype Grid [2][3]int\ntype ByName map[string]Ints\ntype ByID map[ID]Name\n\ntype E uint8\n\nconst (\n\tE1 E = 1\n\tE2 E = 2\n)\n\ntype Empty struct{}\n\ntype S struct {\n\tA ID\n\tB Name\n\tC Ratio\n\tD Flag\n\tE Ints\n\tF Grid\n\tG ByName\n\tH ByID\n\tI E\n\tJ Empty\n\tK time.Time\n\tL [0]int\n\tM map[E]bool\n\tN []Empty\n}\n"),
 		mk("ts-unions", "package models\n\nimport \"time\"\n\ntype U interface{ isU() }\ntype A struct {\n\tX int `json:\"x\"`\n\tS []string\n}\ntype B struct{ T time.Time }\ntype N int\ntype L []int\n\nfunc (A) isU() {}\nfunc (B) isU() {}\nfunc (N) isU() {}\nfunc (L) isU() {}\n\ntype S struct {\n\tV U `json:\"v\"`\n\tHidden int `json:\"-\"`\n\tunexp int\n\tW U\n\tName string\n}\n\ntype List []U\ntype Dict map[string]U\ntype ByID map[int]U\n\ntype Outer struct {\n\tInner S\n\tItems List\n\tD Dict\n\tI ByID\n\tMany []S\n}\n"),
 		mk("ts-generics", "package models\n\ntype IdUser int64\ntype IdGroup int64\n\ntype Holder struct {\n\tU Opt[IdUser]\n\tG Opt[IdGroup]\n\tN Opt[int]\n\tP Pair[string, IdUser]\n\tQ Pair[IdUser, string]\n\tL []Opt[IdGroup]\n}\n",
